@@ -156,13 +156,17 @@ func runJWT(kind string, doc *J, minimize bool, note string) {
 
 		// direct oracle: the credential rebuilt from the JWT claims carries the same members as the JSON-LD form
 		// (dates compared as instants at the resolution of NumericDate, whole seconds)
-		inst := func(d *J) *J {
+		inst := func(d *J, whole bool) *J {
 			c := normVC(d)
 
 			for _, k := range []string{"issuanceDate", "expirationDate"} {
 				if v := c.get(k); v != nil && v.K == jStr {
 					if t, ok := parseDate(v.S); ok {
-						c.set(k, num(t.Unix()))
+						if whole {
+							c.set(k, num(t.Unix()))
+						} else {
+							c.set(k, bignum(fmt.Sprint(t.UnixNano())))
+						}
 					}
 				}
 			}
@@ -170,8 +174,14 @@ func runJWT(kind string, doc *J, minimize bool, note string) {
 			return c
 		}
 
-		if diffs := diffMembers(inst(r1.out), inst(rebuilt)); len(diffs) > 0 {
-			fail("jwt:claims-differ:"+diffs[0], strings.Join(diffs, ","))
+		if diffs := diffMembers(inst(r1.out, false), inst(rebuilt, false)); len(diffs) > 0 {
+			if len(diffMembers(inst(r1.out, true), inst(rebuilt, true))) == 0 {
+				// the instants agree to the second: NumericDate carries whole seconds only
+				fail("jwt:subsecond-date-truncated", strings.Join(diffs, ","))
+			} else {
+				fail("jwt:claims-differ:"+diffs[0], strings.Join(diffs, ","))
+			}
+
 			return
 		}
 
